@@ -1,5 +1,4 @@
--- imports RouterLookupLib.lean (tree + matcher model)
-import Probe.LookupLib
+import RouterLookupLib
 /-! Proof probe for C05, matching half of completeness: in a tree with the structural invariants
     (heads distinct, `{`-headed parameter nodes whose children are static, non-empty static prefixes headed by
     their first byte), every route that is present is found for every instance whose arguments are non-empty and
